@@ -11,7 +11,8 @@ import (
 func init() { families["route"] = runRoute }
 
 var rtHosts = []string{"a.com", "b.com", "c.com"}
-var rtURIs = []string{"/", "/api", "/api/v1/users?x=1", "/static/x.js", "/apix"}
+var rtURIs = []string{"/", "/api", "/api/v1/users?x=1", "/static/x.js", "/apix", "/api/zones", "/apiary", "/users", "/user/7", "/api/users/1", "/s"}
+var rtPrefixPool = []string{"/", "/api", "/api/users", "/api/v1", "/apix", "/user", "/users", "/static", "/s", "/api/"}
 var rtHostLists = [][]string{nil, {"a.com"}, {"b.com", "c.com"}, {"a.com", "b.com"}}
 var rtPrefixLists = [][]string{nil, {"/api"}, {"/static", "/api/v1"}, {"/"}}
 var rtNames = []string{"l0", "l1", "l2", "l3", "zz"}
@@ -28,7 +29,7 @@ func strList(xs []string) string {
 func runRoute(seed uint64, n int, tier string, out string, replay string) {
 	rnd := hx.NewRand(seed)
 	sum := hx.NewSummary("route", seed)
-	sum.Rule = "one case = one location set (1-5 locations; host list and prefix list each drawn from 4 shapes incl. empty; names possibly shared or unlisted; declaration order random) queried with every (host, URI) of a 3x5 universe under 3 server location lists; observable = which configured location the real Locations.Get returns; non-trivial = at least two eligible locations of different classes for some query; distinct by the location set"
+	sum.Rule = "one case = one location set (1-5 locations; host list and prefix list drawn from 4 fixed shapes or (60%) 1-4 related prefixes from a pool of 10 in any order (nested prefixes, duplicates); names possibly shared or unlisted; declaration order random) queried with every (host, URI) of a 3x11 universe under 3 server location lists; observable = which configured location the real Locations.Get returns; non-trivial = at least two eligible locations of different classes for some query; distinct by the location set"
 	header := "From Coq Require Import List NArith ZArith.\nImport ListNotations.\nFrom Pike Require Import Base.Bytes Model.Location Corr.C14Corr.\nFrom PikeRun Require Import Consts.\n"
 	w := hx.NewCaseWriter(out, "route", header, "list rt_case", "check_cases Consts.loc_pconsts", 60, sum)
 	distinct := hx.NewDistinct()
@@ -40,6 +41,14 @@ func runRoute(seed uint64, n int, tier string, out string, replay string) {
 		for j := 0; j < nl; j++ {
 			hl := rtHostLists[rnd.Intn(len(rtHostLists))]
 			pl := rtPrefixLists[rnd.Intn(len(rtPrefixLists))]
+			if rnd.Chance(60) {
+				// free-form list: related prefixes (one extending another), any order, 1-4 entries
+				k := 1 + rnd.Intn(4)
+				pl = nil
+				for len(pl) < k {
+					pl = append(pl, rtPrefixPool[rnd.Intn(len(rtPrefixPool))])
+				}
+			}
 			name := rtNames[rnd.Intn(4)]
 			if rnd.Chance(70) {
 				name = rtNames[j%4]
